@@ -174,6 +174,24 @@ pub open spec fn branch_target(c: Code) -> Option<Seq<char>> {
 }
 
 /// a general-purpose register operand (not SP / XZR); numbers 0..29 print as X0..X17, X19..X30
+/// instructions that transfer control (their data effect under `run` is the fall-through one)
+pub open spec fn is_control(c: Code) -> bool {
+    match c {
+        Code::B(_) => true,
+        Code::BR(_) => true,
+        Code::BL(_) => true,
+        Code::BEQ(_) => true,
+        Code::BNE(_) => true,
+        Code::BLT(_) => true,
+        Code::BLE(_) => true,
+        Code::BGT(_) => true,
+        Code::BGE(_) => true,
+        Code::RET => true,
+        Code::LAB(_) => true,
+        _ => false,
+    }
+}
+
 pub open spec fn xreg_ok(r: Register) -> bool {
     match r { Register::X(n) => n < 30, _ => false }
 }
@@ -206,7 +224,8 @@ pub open spec fn encodable(c: Code) -> bool {
         Code::MOVN(d, i, sh) => xreg_ok(d) && imm16(i) && shift16(sh),
         Code::MOVK(d, i, sh) => xreg_ok(d) && imm16(i) && shift16(sh),
         Code::LDR(d, b, o) => xreg_ok(d) && xsp_ok(b) && off_ldst(o),
-        Code::STR(r, b, o) => xreg_ok(r) && xsp_ok(b) && off_ldst(o),
+        // the zero register is a valid source of a store
+        Code::STR(r, b, o) => (xreg_ok(r) || r is XZR) && xsp_ok(b) && off_ldst(o),
         Code::LDP_POST_INDEX(a, b, base, i) => xreg_ok(a) && xreg_ok(b) && a != b && xsp_ok(base) && off_pair(i),
         Code::STP_PRE_INDEX(a, b, base, i) => xreg_ok(a) && xreg_ok(b) && xsp_ok(base) && off_pair(i),
         Code::CMPR(a, b) => xreg_ok(a) && xreg_ok(b),
@@ -313,4 +332,17 @@ pub open spec fn appended_enc(old: Seq<Code>, new: Seq<Code>) -> bool {
 
 pub open spec fn all_enc(c: Seq<Code>) -> bool {
     forall|i: int| 0 <= i < c.len() ==> encodable(#[trigger] c[i])
+}
+
+/// extensional equality of machine states; `lemma_st_eq` turns it into `==`
+pub open spec fn st_eq(a: St, b: St) -> bool {
+    tot_eq(a.regs, b.regs) && tot_eq(a.mem, b.mem) && a.sp == b.sp && a.fl == b.fl && a.ok == b.ok && a.calls == b.calls
+}
+
+pub broadcast proof fn lemma_st_eq(a: St, b: St)
+    requires #[trigger] st_eq(a, b),
+    ensures a == b,
+{
+    lemma_tot_eq(a.regs, b.regs);
+    lemma_tot_eq(a.mem, b.mem);
 }
